@@ -121,6 +121,22 @@ let handle cmd =
   | "col" -> let a = next_pt () in let b = next_pt () in let c = next_pt () in b2s (isCollinear a b c)
   | "cross" -> let a = next_pt () in let b = next_pt () in let c = next_pt () in string_of_z (crossProduct a b c)
   | "noop" -> "OK"
+  | "area" -> let p = next_path () in
+    string_of_z (area64_twice p) ^ " " ^ b2s (isPositive64_model p) ^ " " ^ string_of_z (shoelace2 p)
+  | "bounds" -> let p = next_path () in
+    let (((l, t), r), b) = getBounds64_model p in
+    let (((l2, t2), r2), b2) = getBounds_model p in
+    String.concat " " (List.map string_of_z [l; t; r; b; l2; t2; r2; b2])
+  | "strip" -> let c = next_int () = 1 in let p = next_path () in str_path (stripDuplicates_model p c)
+  | "pip" -> let q = next_pt () in let p = next_path () in
+    string_of_z (pip_model q p) ^ " " ^ string_of_z (pip_spec q p)
+  | "crossx" -> let a = next_pt () in let b = next_pt () in let c = next_pt () in string_of_z (cross_exact a b c)
+  | "mink" ->
+    let s = next_int () = 1 in let c = next_int () = 1 in
+    let pat = next_path () in let p = next_path () in
+    (match mink_model pat p s c with
+     | None -> "PANIC"
+     | Some r -> String.concat " ; " (List.map str_path r))
   | "trim" ->
     let o = next_int () = 1 in let p = next_path () in
     let ex = trim_exact p o in
